@@ -369,9 +369,83 @@ def transport_check(tier, res):
             sig[("fragmentation-dependent-delivery", "transport=tty,multi-line")] = {"clause": "fragmentation-dependent-delivery", "disc": "transport=tty,multi-line", "count": 1, "what": "TTY: delivered %r, text %r, handler ended=%s" % (kinds, text, task.done()), "replay": {"transport": "tty"}}
     finally:
         loop.teardown()
+    multi_connection_check(tier, res, sig)
     res["violations"] = list(sig.values())
     res["counters"]["transport_feeds"] = res["states"]
     return res
+
+
+def multi_connection_check(tier, res, sig):
+    """framing is per connection: two connections of one process (two clients of a server, created the way the
+    server creates them; the control and the BLOB connection of a client) receive their streams in two pieces
+    each, cut at every k-th position, under EVERY interleaving of the four reads; each connection must deliver
+    exactly its own messages, once, in order, whatever the other one has buffered."""
+    import itertools
+
+    from indi.routing import Device, Router
+    from indi.transport.client.tcp import ConnectionHandler as ClientH
+    from indi.transport.server.tcp import ConnectionHandler as ServerH
+
+    from mc.core import vloop as V
+
+    s1 = b'<getProperties version="1.7" device="D1"/><newTextVector device="D1" name="N"><oneText name="a">one</oneText></newTextVector>'
+    s2 = b'<newNumberVector device="D2" name="M"><oneNumber name="x">2.5</oneNumber></newNumberVector><getProperties version="1.7" device="D2" name="M"/>'
+    want = {"D1": ["GetProperties", "NewTextVector"], "D2": ["NewNumberVector", "GetProperties"]}
+    step = 5 if tier == "quick" else 2
+    orders = sorted(set(itertools.permutations((0, 0, 1, 1))))
+    for side in ("server", "client"):
+        for c1 in range(1, len(s1), step):
+            for c2 in range(1, len(s2), step):
+                pieces = ([s1[:c1], s1[c1:]], [s2[:c2], s2[c2:]])
+                for order in orders:
+                    loop = V.VLoop().install()
+                    try:
+                        got = []
+                        eps = [V.Endpoint(loop, "c1"), V.Endpoint(loop, "c2")]
+                        if side == "server":
+                            router = Router()
+
+                            class Rec(Device):
+                                def accepts(self, device):
+                                    return True
+
+                                def message_from_client(self, message):
+                                    got.append(message)
+
+                            router.register_device(Rec())
+                            hf = ServerH.handler(router)
+                            tasks = [loop.create_task(hf(ep.reader, ep.writer)) for ep in eps]
+                        else:
+                            hs = [ClientH(eps[0].reader, eps[0].writer, got.append), ClientH(eps[1].reader, eps[1].writer, got.append, for_blobs=True)]
+                            tasks = [loop.create_task(h.wait_for_messages()) for h in hs]
+                        loop.quiesce()
+                        nxt = [0, 0]
+                        for who in order:
+                            eps[who].feed(pieces[who][nxt[who]])
+                            nxt[who] += 1
+                            loop.quiesce()
+                        res["transitions"] += 4
+                        res["states"] += 1
+                        res["counters"]["multi_connection_schedules"] = res["counters"].get("multi_connection_schedules", 0) + 1
+                        per = {"D1": [], "D2": []}
+                        other = []
+                        for m in got:
+                            d = getattr(m, "device", None)
+                            (per[d] if d in per else other).append(type(m).__name__)
+                        if any(t.done() for t in tasks):
+                            clause, what = "receive-loop-stopped", "a connection handler ended"
+                        elif per != want or other:
+                            clause, what = "connections-share-framing-state", "delivered %r (+%r), sent %r" % (per, other, want)
+                        else:
+                            continue
+                        key = (clause, "transport=%s,two-connections" % side)
+                        if key in sig:
+                            sig[key]["count"] += 1
+                        else:
+                            sig[key] = {"clause": clause, "disc": key[1], "what": "%s side, cuts %d/%d, read order %r: %s" % (side, c1, c2, order, what), "count": 1, "replay": {"transport": side + "-multi", "cuts": [c1, c2], "order": list(order)}}
+                    finally:
+                        loop.teardown()
+                        del ServerH.connections[:]
 
 
 def selfcheck(tier, res):
